@@ -36,3 +36,53 @@ func TestVerifSmokeH3(t *testing.T) {
 	}
 	t.Logf("steps=%d sim=%.1fs trouble=%q viol=%v", oc.Steps, oc.SimSec, oc.Trouble, oc.Viol)
 }
+
+func TestVerifSmokeCluster(t *testing.T) {
+	prog := &hx.Program{P: map[string]int64{"sticky": 90}}
+	oc := runH3(t, prog, simrt.NewDecider(1), true, 3, func(h *h3) {
+		for i := 0; i < 3; i++ {
+			if err := h.startNode(i); err != nil {
+				t.Errorf("start: %v", err)
+				return
+			}
+		}
+		c := h.waitController(60 * time.Second)
+		if c == nil {
+			t.Errorf("no controller\n%s", h.s.Dump())
+			return
+		}
+		h.s.Logf("controller %s at %v", c.id, h.s.Now())
+		var err error
+		h.rpc(c, "create", func(api *apiServer) {
+			ctx, cancel := ctxT(10 * time.Second)
+			defer cancel()
+			_, err = api.CreateStream(ctx, &client.CreateStreamRequest{Name: "foo", Subject: "foo", Partitions: 1, ReplicationFactor: 3})
+		})
+		h.s.Logf("create stream: %v", err)
+		for i := 0; i < 5; i++ {
+			var resp *client.PublishResponse
+			h.rpc(c, "publish", func(api *apiServer) {
+				ctx, cancel := ctxT(10 * time.Second)
+				defer cancel()
+				resp, err = api.Publish(ctx, &client.PublishRequest{Stream: "foo", Value: []byte("hello"), AckPolicy: client.AckPolicy_ALL})
+			})
+			h.s.Logf("publish: %v %v at %v", resp, err, h.s.Now())
+		}
+		simrt.Sleep(2 * time.Second)
+		for _, n := range h.nodes {
+			p := n.srv.metadata.GetPartition("foo", 0)
+			if p == nil {
+				h.s.Logf("%s: no partition", n.id)
+				continue
+			}
+			h.s.Logf("%s: leader=%v newest=%d hw=%d isr=%v", n.id, p.IsLeader(), p.log.NewestOffset(), p.log.HighWatermark(), p.GetISR())
+		}
+		for i := 0; i < 3; i++ {
+			h.stopNode(i)
+		}
+	})
+	for _, l := range oc.Log {
+		t.Log(l)
+	}
+	t.Logf("steps=%d sim=%.1fs trouble=%q viol=%v", oc.Steps, oc.SimSec, oc.Trouble, oc.Viol)
+}
